@@ -146,11 +146,11 @@ def h_expect(env, route, words, spec, n, init, complex_coefs=False, ident=False,
     env.check_eq(val, exp, f"get_expectation_value[{route}] == <psi|H|psi> for words {words}")
 
 
-def h_variance(env, words, spec, n):
+def h_variance(env, words, spec, n, complex_coefs=False):
     from tangelo.linq import Circuit
     gates, params = build_gates(env, spec)
     circ = Circuit(gates, n_qubits=n)
-    op, terms = make_op(env, words)
+    op, terms = make_op(env, words, complex_coefs)
     try:
         b = _backend(env, "native")
         var = b.get_variance(op, circ)
@@ -161,9 +161,47 @@ def h_variance(env, words, spec, n):
     exp = R.C(0)
     for w, c in terms.items():
         e = R.expectation(st, n, {w: R.C(1)})
-        exp = exp + c * c * (1 - e * e)
-    env.check_eq(var, exp, "get_variance == sum c_k^2 (1 - <P_k>^2) of the exact distribution")
+        exp = exp + c * R.n_conj(c) * (1 - e * e)
+    env.check_eq(var, exp, "get_variance == sum |c_k|^2 (1 - <P_k>^2) of the exact distribution")
     env.check_eq(se, 0, "standard error without shots is 0")
+
+
+def h_sympy_expect(env, words, spec, n, canary=False):
+    """the sympy backend (run for real on string parameters): get_expectation_value == <psi|H|psi>"""
+    from tangelo.linq import Circuit, Gate, get_backend
+    from tangelo.toolboxes.operators import QubitOperator
+    from symx import sympyconv
+    gates, params, symmap = [], [], {}
+    for i, (name, tg, ct) in enumerate(spec):
+        if name in PARAM:
+            th = env.angle(f"th{i}")
+            symmap[f"th{i}"] = th
+            params.append(th)
+            gates.append(Gate(name, tg, control=ct if ct else None, parameter=f"th{i}"))
+        else:
+            params.append("")
+            gates.append(Gate(name, tg, control=ct if ct else None))
+    circ = Circuit(gates, n_qubits=n)
+    # concrete rational coefficients (the sympy route post-processes with simplify().evalf())
+    coefs = [0.5, -0.75, 1.25, 0.25]
+    op = QubitOperator()
+    terms = {}
+    for w, c in zip(words, coefs):
+        op.terms[tuple(w)] = c
+        terms[tuple(w)] = c
+    b = get_backend("sympy")
+    with shim.concrete_mode():
+        val = b.get_expectation_value(op, circ)
+    st = oracle(spec, params, n, R.basis_state(n, 0))
+    exp = R.expectation(st, n, terms)
+    if canary:
+        exp = exp + 1
+    got = sympyconv.to_number(val, symmap, env.symbolic)
+    if env.symbolic:
+        d = Sym.of(got) - Sym.of(exp)
+        env.check_le(d.real * d.real + d.imag * d.imag, 1e-16, "sympy get_expectation_value == <psi|H|psi> (up to evalf rounding 1e-8)")
+    else:
+        env.check_le(abs(complex(got) - complex(exp)), 1e-8, "sympy get_expectation_value == <psi|H|psi>")
 
 
 def h_postselect(env, words, pre, post, mq, outcome, n, route):
@@ -315,6 +353,13 @@ def shapes(tier, seed):
     out.append(Shape("canary/expect/sign", h_expect, dict(route="plain", words=[[(0, "Y")], [(1, "Z")]], spec=PREPS[0], n=2, init=False, canary=True),
                      modules=MODS, canary=True))
     out.append(Shape("variance/0", h_variance, dict(words=[[(0, "X")], [(0, "Z"), (1, "Z")]], spec=PREPS[0], n=2), modules=MODS))
+    out.append(Shape("variance/complex", h_variance, dict(words=[[(0, "X")], [(0, "Z"), (1, "Z")]], spec=PREPS[2], n=2, complex_coefs=True), modules=MODS))
+    sy = [([[(0, "X")], [(0, "Y"), (1, "Z")]], [("RX", [0], []), ("H", [1], []), ("CNOT", [1], [0])]),
+          ([[(0, "Y")], [(1, "X")], [(0, "Z"), (1, "Y")]], [("RY", [0], []), ("S", [0], []), ("RZ", [1], []), ("H", [1], [])]),
+          ([[(0, "Z")], [(0, "X"), (1, "X")]], [("H", [0], []), ("CRX", [1], [0])])]
+    for i, (ws, spec) in enumerate(sy):
+        out.append(Shape(f"sympy/expect/{i}", h_sympy_expect, dict(words=ws, spec=spec, n=2), modules=MODS))
+    out.append(Shape("canary/sympy/expect", h_sympy_expect, dict(words=sy[0][0], spec=sy[0][1], n=2, canary=True), modules=MODS, canary=True))
     out.append(Shape("variance/1", h_variance, dict(words=[[(1, "Y")]], spec=PREPS[3], n=2), modules=MODS))
     for i, route in enumerate(routes):
         for outcome in (0, 1):
